@@ -20,7 +20,7 @@ PLUGIN = os.path.join(VERIF, "build", "ctpgx.so")
 CACHE = os.path.join(VERIF, ".cache", "facts")
 WITNESS_DIR = os.path.join(VERIF, "witness")
 
-WITNESS_TUS = ["w_core.cpp", "w_values.cpp", "w_lexer.cpp", "w_limits.cpp", "w_constexpr.cpp"]
+WITNESS_TUS = ["w_core.cpp", "w_values.cpp", "w_lexer.cpp", "w_limits.cpp", "w_constexpr.cpp"]   # w_cexeval.cpp: compile-fail witness (C07)
 
 
 class AnalysisIncomplete(Exception):
